@@ -223,6 +223,29 @@ def rounds(ctx, shard, nshards):
                     continue
             vals.append((n, s))
         ins = [text(ik, n, s) for n, s in vals]
+        # two targets in one invocation are two roundings, one after the other: each argument
+        # keeps its own meaning (a co-class marker belongs to the argument that carries it)
+        if ik == "dt" and not nextp and rnd.random() < 0.3:
+            spec2 = gen_spec(rnd)
+            if "dt" in spec2["inputs"]:
+                pargs = ["--", spec["txt"], spec2["txt"]]
+                ptag = "pair:%s:%s>%s:%s" % (spec["f"][0], spec["f"][1], spec2["f"][0], spec2["f"][1])
+                try:
+                    pout, _ = run_lines(ctx.build, "dround", pargs, ins)
+                except BatchError as e:
+                    V.add("batch:" + ptag, {"args": pargs, "ins": ins[:4], "kind": "batch"}, detail=str(e),
+                          actual=e.result.brief())
+                    pout = []
+                for (n, s_), i, o in zip(vals, ins, pout):
+                    e1 = expected(spec, False, n, s_)
+                    e2 = expected(spec2, False, e1[0], e1[1]) if e1 is not None else None
+                    if e2 is None:
+                        continue
+                    x = text(ik, e2[0], e2[1])
+                    sub.evaluations += 1
+                    sub.nt((ptag, spec["txt"], spec2["txt"], i))
+                    if o != x:
+                        V.add(ptag, {"args": pargs, "in": i, "exp": x, "kind": "round"}, expected=x, actual=o)
         args = IARGS.get(ik, []) + (["-n"] if nextp else []) + ["--", spec["txt"]]
         tag = "%s:%s%s:%s%s" % (spec["f"][0], spec["f"][1], "" if spec["f"][0] == "field" else "", ik, ":next" if nextp else "")
         if spec["f"][3] < 0:
